@@ -355,6 +355,7 @@ func lGenN(r *Rng, id int, n int) lHist {
 // ---------------- executor ----------------
 
 type lRun struct {
+	levLocks map[string][][2]sdkmath.Int // C12: own book of locked leveraged shares per position: (amount, unlock time)
 	t    *testing.T
 	col  *Collector
 	prop string
@@ -401,6 +402,38 @@ func (x *lRun) fail(sig, detail string) {
 		return // another property's predicate: reported by that property's check
 	}
 	x.col.Violate(Violation{Signature: sig, Detail: detail, History: x.h.ID, Step: x.step, Replay: x.h})
+}
+
+// levShares: leveraged LP shares per position ("owner/id") of one owner in one pool
+func (x *lRun) levShares(owner string, pool uint64) map[string]sdkmath.Int {
+	out := map[string]sdkmath.Int{}
+	for _, p := range x.w.App.LeveragelpKeeper.GetAllPositions(x.w.QCtx()) {
+		if p.Address == owner && p.AmmPoolId == pool {
+			out[fmt.Sprintf("%s/%d", p.Address, p.Id)] = p.LeveragedLpAmount
+		}
+	}
+	return out
+}
+
+// c12LevLocked (property C12, lock-up rule, judged by the harness's own book of what was committed when): after a step that was NOT a
+// liquidation, the position must still hold every share committed under a lock that has not run out
+func (x *lRun) c12LevLocked(owner string, id uint64, what string) {
+	key := fmt.Sprintf("%s/%d", owner, id)
+	now := x.w.Time.Unix()
+	locked := sdkmath.ZeroInt()
+	for _, l := range x.levLocks[key] {
+		if l[1].Int64() > now {
+			locked = locked.Add(l[0])
+		}
+	}
+	have := sdkmath.ZeroInt()
+	if p, err := x.w.App.LeveragelpKeeper.GetPosition(x.w.QCtx(), sdk.MustAccAddressFromBech32(owner), id); err == nil {
+		have = p.LeveragedLpAmount
+	}
+	x.col.ImplCheck(1)
+	if have.LT(locked) {
+		x.fail("C12:locked-shares-released-without-liquidation", fmt.Sprintf("position %s: after %s at t=%d it holds %s shares although %s were committed under locks that are still running", key, what, now, have, locked))
+	}
 }
 
 func (x *lRun) poolID(p int) uint64 {
@@ -633,7 +666,25 @@ func (x *lRun) exec(op lOp) (res TxResult, amt *big.Int) {
 	case "lev_open":
 		v := bigOf(op.Amt)
 		amt = v.BigInt()
-		return w.Deliver(&levtypes.MsgOpen{Creator: u, CollateralAsset: USDC, CollateralAmount: v, AmmPoolId: x.oraclePool(x.qOf(op)), Leverage: dec(op.Lev), StopLossPrice: dec(op.P)}), amt
+		pid := x.oraclePool(x.qOf(op))
+		lpBefore := x.levShares(u, pid)
+		r := w.Deliver(&levtypes.MsgOpen{Creator: u, CollateralAsset: USDC, CollateralAmount: v, AmmPoolId: pid, Leverage: dec(op.Lev), StopLossPrice: dec(op.P)})
+		if r.OK() {
+			// C12, the harness's own lock book: the shares this open added were committed under the one-hour lock of oracle pools
+			for key, now := range x.levShares(u, pid) {
+				prev, had := lpBefore[key]
+				if !had {
+					prev = sdkmath.ZeroInt()
+				}
+				if d := now.Sub(prev); d.IsPositive() {
+					if x.levLocks == nil {
+						x.levLocks = map[string][][2]sdkmath.Int{}
+					}
+					x.levLocks[key] = append(x.levLocks[key], [2]sdkmath.Int{d, sdkmath.NewInt(w.Time.Unix() + 3600)})
+				}
+			}
+		}
+		return r, amt
 	case "lev_close":
 		ps := w.App.LeveragelpKeeper.GetAllPositions(w.QCtx())
 		if len(ps) == 0 {
@@ -646,7 +697,11 @@ func (x *lRun) exec(op lOp) (res TxResult, amt *big.Int) {
 		}
 		v := relOf(op.Rel, p.LeveragedLpAmount)
 		amt = v.BigInt()
-		return w.Deliver(&levtypes.MsgClose{Creator: creator, Id: p.Id, LpAmount: v}), amt
+		r := w.Deliver(&levtypes.MsgClose{Creator: creator, Id: p.Id, LpAmount: v})
+		if r.OK() {
+			x.c12LevLocked(p.Address, p.Id, "MsgClose by "+creator)
+		}
+		return r, amt
 	case "perp_open":
 		q := x.qOf(op)
 		trade := x.trade(q)
@@ -1076,6 +1131,9 @@ func (x *lRun) closePositions(op lOp) (res TxResult) {
 				allowed = slOK || (len(other) > 0 && liqOK)
 			}
 			if !allowed {
+				// C12: a forced close uncommits with the liquidation flag, which overrides lock-ups: without a liquidation condition
+				// the shares committed within the last hour must still be there
+				x.c12LevLocked(p.Address, p.Id, "MsgClosePositions by "+u+" without a liquidation or stop-loss condition")
 				x.fail("C10:levlp-forced-close-without-guard", fmt.Sprintf("position %s/%d changed by %s (dir %d) with health %s > safety factor %s, lp price %s stop loss %s",
 					p.Address, p.Id, u, op.Dir, before.health, sf, lpPrice, before.stopLoss))
 			}
@@ -1646,7 +1704,11 @@ func firstLines(s string, n int) string {
 
 func runLedger(t *testing.T, prop string) {
 	seed := envInt("VERIF_SEED", 1)
-	col := NewCollector(prop, seed)
+	cname := prop
+	if prop == "C12" {
+		cname = "C12l" // extra test of the C12 check: the lock-up rule on leveraged positions (TestC12 has its own directory)
+	}
+	col := NewCollector(cname, seed)
 	n := 128
 	if tier() == "thorough" {
 		n = 1200
@@ -1827,6 +1889,9 @@ func TestC06(t *testing.T) { runLedger(t, "C06") }
 func TestC08(t *testing.T) { runLedger(t, "C08") }
 func TestC09(t *testing.T) { runLedger(t, "C09") }
 func TestC11(t *testing.T) { runLedger(t, "C11") }
+
+// TestC12Ledger: the ledger histories judged by C12's lock-up rule on leveraged-LP positions (extra test of the C12 check)
+func TestC12Ledger(t *testing.T) { runLedger(t, "C12") }
 
 // ---------------- shrinking (delta debugging on the op list) ----------------
 
